@@ -254,7 +254,7 @@ def check_hy_equation(ctx, it, q, f, loop):
     from ..values import Num
     from .common import only
 
-    p = only(it.run_function(q), q)
+    p = only(it.run_function(q), q, ctx, "C06-h")
     env = p.env.vars if p.env is not None else {}
     y, pr, Tr = nf.sym("y"), nf.sym("pressure"), nf.sym("temperature")
     t = nf.div(nf.ONE, Tr)
